@@ -1,7 +1,55 @@
-(* C14 — placeholder; replaced when Proofs/UniProofs.v is in. *)
+(* C14 — Unicode text passes through a program unchanged.  Property theorems only.
+   Stated over the language definition L2 (coq/Spec/Lang.v), which the interpreter refines (C01), the optimiser
+   preserves (C02) and the compiled program reproduces (C03), and over the UTF-8 codec model (coq/Model/Utf8.v: the
+   documented behaviour of Rust's String::from_utf8 / char::encode_utf8).  The real stdin/stdout byte path and the
+   compiled executables are observed by tools/hv/unichecks.py.
+   A limit of the language: a program can only jump to commands it has already executed, so every command of a run
+   that ends by running off the end has executed at least once; hence no program prints on non-empty input and
+   prints nothing on empty input.  The copy loop is therefore claimed for non-empty inputs; COPY 0 covers the empty text. *)
 From Coq Require Import List NArith Bool.
 Import ListNotations.
-From HV Require Import Model.Utf8.
-Theorem C14_ascii_roundtrip : decode (encode [65; 10; 0]) = Some [65; 10; 0].
-Proof. reflexivity. Qed.
-Print Assumptions C14_ascii_roundtrip.
+From HV Require Import Model.Parse Model.Utf8 Spec.Lang Proofs.UniSpec.
+From HV Require Proofs.UniProofs.
+Open Scope N_scope.
+
+(* every valid text survives encoding and decoding: every scalar value U+0000..U+10FFFF, any length *)
+Theorem C14_utf8_roundtrip : forall t, scalars t -> decode (encode t) = Some t.
+Proof. exact UniProofs.utf8_roundtrip. Qed.
+Print Assumptions C14_utf8_roundtrip.
+
+(* the bytes on standard input are read as the lines of the text, each with its line break, a missing final line break
+   and empty lines included *)
+Theorem C14_stdin_lines : forall t, scalars t -> stdin_lines (encode t) = map Some (split_nl t []).
+Proof. exact UniProofs.stdin_lines_ok. Qed.
+Print Assumptions C14_stdin_lines.
+Theorem C14_lines_cover_text : forall t, concat (split_nl t []) = t /\ Forall (fun l => l <> []) (split_nl t []).
+Proof. exact UniProofs.split_nl_concat. Qed.
+Print Assumptions C14_lines_cover_text.
+
+(* the k-th value popped from standard input is the k-th character; end of input is seen as NaN, and only then *)
+Theorem C14_stdin_stream : forall k t, small_scalars t ->
+  exists s, srun (S (S k)) (stream_prog k) (lstate0 (lines_of t)) 0 = SDone s /\
+            sget s 3 = repeat VNaN (match t with [] => 0%nat | _ => k - length t end) ++ rev (map vnat (firstn k t)) /\
+            out s = [] /\ err s = [].
+Proof. exact UniProofs.stdin_stream. Qed.
+Print Assumptions C14_stdin_stream.
+
+(* a fixed number of characters *)
+Theorem C14_copy_n : forall n t, small_scalars t ->
+  exists s, srun (S (S n)) (copy_prog n) (lstate0 (lines_of t)) 0 = SDone s /\
+            out s = firstn n t ++ nan_texts (n - length t) /\ err s = [].
+Proof. exact UniProofs.copy_n_ok. Qed.
+Print Assumptions C14_copy_n.
+
+(* in a loop until end of input: the whole text, exactly, and the program terminates *)
+Theorem C14_cat_loop : forall t, t <> [] -> small_scalars t ->
+  exists fuel s, srun fuel cat_prog (lstate0 (lines_of t)) 0 = SDone s /\ out s = t /\ err s = [].
+Proof. exact UniProofs.cat_loop. Qed.
+Print Assumptions C14_cat_loop.
+
+Example C14_examples :
+  decode (encode [0; 127; 128; 2047; 2048; 55295; 57344; 65535; 65536; 1114111]) = Some [0; 127; 128; 2047; 2048; 55295; 57344; 65535; 65536; 1114111] /\
+  decode [237; 160; 128] = None /\ decode [192; 128] = None /\ decode [244; 144; 128; 128] = None /\
+  is_scalar_value 55296 = false.
+Proof. vm_compute. repeat split; reflexivity. Qed.
+Print Assumptions C14_examples.
